@@ -21,8 +21,14 @@ func init() {
 			var ops []string
 			for _, o := range sx.AsList(in) {
 				oo := sx.AsList(o)
+				if sx.AsInt(oo[0]) == 9 {
+					ops = append(ops, "[heap machine]")
+					continue
+				}
 				fl := sx.AsInt(oo[len(oo)-1])
 				switch sx.AsInt(oo[0]) {
+				case 8:
+					ops = append(ops, fmt.Sprintf("v%d.GetByIndex(%d).SetAsObject(%s)", sx.AsInt(oo[1]), sx.AsInt(oo[2]), sx.Text(oo[3])))
 				case 0:
 					ops = append(ops, fmt.Sprintf("v%d=%s(%s %s)", sx.AsInt(oo[1]), []string{"NewVariant", "VariantFromX", "SetAsX"}[fl], c20Kinds[sx.AsInt(oo[3])], sx.Text(oo[2])))
 				case 1:
@@ -43,7 +49,19 @@ func init() {
 			}
 			return strings.Join(ops, "; ")
 		},
-		Rule: "operation histories of length<=16 on 4 variant handles and 2 caller-owned lists (slices with spare capacity, also reused after truncation to length 0): construction from host values of every supported Go kind (int, int32, uint, uint32, int64, float32, float64, bool, string, time.Time, time.Duration, nil, other) through NewVariant / VariantFromX / SetAsX, from lists through VariantFromArray / SetAsArray / NewVariant, copies through Clone / SetAsObject / NewVariant / Assign, indexed writes within and past the end, SetLength, caller-side writes, appends and truncations; handles that share a list through Assign are not mutated in place (DESIGN.md 4.3); after every operation all values and the full Equals matrix are observed; non-trivial = a copy or list construction followed by a mutation of either side; distinct by input hash"})
+		Rule: "operation histories of length<=16 on 4 variant handles and 2 caller-owned lists (slices with spare capacity, also reused after truncation to length 0): construction from host values of every supported Go kind (int, int32, uint, uint32, int64, float32, float64, bool, string, time.Time, time.Duration, nil, other) through NewVariant / VariantFromX / SetAsX, from lists through VariantFromArray / SetAsArray / NewVariant, copies through Clone / SetAsObject / NewVariant / Assign, indexed writes within and past the end, SetLength, caller-side writes, appends and truncations; every history is run by the model on the HEAP machine (objects, slices, backing arrays; the spare capacity append leaves is measured from the Go runtime and passed with the history); in the disciplined families handles that share a list through Assign are not mutated in place (DESIGN.md 4.3) and the direct value oracle applies, in the shared-write family they are (indexed writes and SetLength on either handle, inside the shared part, at its end and past it, clones and further Assigns in between) and the heap machine alone says what every handle must then hold; after every operation all values and the full Equals matrix are observed; non-trivial = a copy or list construction followed by a mutation of either side; distinct by input hash"})
+}
+
+// c20Slack measures what the heap machine takes as a parameter: the spare capacity append leaves when it has to
+// reallocate a full slice of length n.
+func c20Slack() sx.SX {
+	var t sx.List
+	for n := 0; n < 64; n++ {
+		s := make([]*variants.Variant, n, n)
+		s = append(s, nil)
+		t = append(t, sx.N(cap(s)-n-1))
+	}
+	return sx.L(sx.I(9), t)
 }
 
 type hostVal struct {
@@ -85,6 +103,10 @@ func c20Host(ctx *Ctx) hostVal {
 }
 
 func genC20(ctx *Ctx) {
+	slack := c20Slack()
+	emit := func(ops sx.List, nt bool) {
+		ctx.Input(append(sx.List{slack}, ops...), nt)
+	}
 	for it := 0; it < ctx.N*2; it++ {
 		n := 2 + ctx.Rnd.Intn(15)
 		isArr := make([]bool, 4)
@@ -158,7 +180,7 @@ func genC20(ctx *Ctx) {
 				ctx.Count("op:list-truncate")
 			}
 		}
-		ctx.Input(ops, nt)
+		emit(ops, nt)
 	}
 	// growth chains: an array of length L is written past its end several times, with gaps (so that later writes land
 	// inside whatever spare capacity earlier growth left), then cloned, compared and written again
@@ -182,7 +204,7 @@ func genC20(ctx *Ctx) {
 			h := c20Host(ctx)
 			ops = append(ops, sx.L(sx.I(3), sx.N(1), sx.N(idx+1), h.enc, sx.N(h.kind), sx.I(0)))
 			ctx.Count("growth-chain")
-			ctx.Input(ops, true)
+			emit(ops, true)
 		}
 	}
 	// in-place writes to the nulls an array got by growing (never copied, so nothing else may change): two arrays grow
@@ -206,7 +228,7 @@ func genC20(ctx *Ctx) {
 			ops = append(ops, sx.L(sx.I(8), sx.N(1), sx.N(L+1), h.enc, sx.N(h.kind), sx.I(0)))
 			ops = append(ops, sx.L(sx.I(0), sx.N(2), sx.L(sx.I(0), sx.L()), sx.N(11), sx.I(0))) // a fresh null variant next to them
 			ctx.Count("padding-in-place")
-			ctx.Input(ops, true)
+			emit(ops, true)
 		}
 	}
 	// a variant that shares a list by Assign is then set to another, shorter list: the other variant keeps its elements
@@ -228,9 +250,60 @@ func genC20(ctx *Ctx) {
 				ops = append(ops, sx.L(sx.I(1), sx.N(1), sx.N(1), sx.N(fl))) // v1 = / set to list 1
 				ops = append(ops, sx.L(sx.I(2), sx.N(2), sx.N(0), sx.N(0)))  // v2 = v0.Clone()
 				ctx.Count("assign-then-set-to-list")
-				ctx.Input(ops, true)
+				emit(ops, true)
 			}
 		}
+	}
+	// shared writes: handles that share a list through Assign ARE written in place; what each handle then holds depends on
+	// where the write lands (inside the shared part, at its end, past it) and on the spare capacity of the backing array:
+	// only the heap machine says what is right
+	for it := 0; it < ctx.N; it++ {
+		L := ctx.Rnd.Intn(5)
+		var ops sx.List
+		ops = append(ops, sx.L(sx.I(7), sx.N(0), sx.I(0)))
+		for x := 0; x < L; x++ {
+			h := c20Host(ctx)
+			ops = append(ops, sx.L(sx.I(6), sx.N(0), h.enc, sx.N(h.kind), sx.I(0)))
+		}
+		ops = append(ops, sx.L(sx.I(1), sx.N(0), sx.N(0), sx.N(ctx.Rnd.Intn(3))))
+		if ctx.Rnd.Intn(2) == 0 { // let v0 grow first, so that its backing array has spare capacity when it is shared
+			h := c20Host(ctx)
+			ops = append(ops, sx.L(sx.I(3), sx.N(0), sx.N(L+ctx.Rnd.Intn(2)), h.enc, sx.N(h.kind), sx.I(0)))
+		}
+		ops = append(ops, sx.L(sx.I(2), sx.N(1), sx.N(0), sx.N(3)))
+		isArr := []bool{true, true, false, false}
+		for n := 2 + ctx.Rnd.Intn(6); n > 0; n-- {
+			i := ctx.Rnd.Intn(2)
+			if ctx.Rnd.Intn(5) == 0 {
+				i = 2 + ctx.Rnd.Intn(2)
+			}
+			switch r := ctx.Rnd.Intn(10); {
+			case r < 6:
+				if !isArr[i] {
+					continue
+				}
+				h := c20Host(ctx)
+				ops = append(ops, sx.L(sx.I(3), sx.N(i), sx.N(ctx.Rnd.Intn(L+4)), h.enc, sx.N(h.kind), sx.I(0)))
+				ctx.Count("op:shared-set-by-index")
+			case r < 8:
+				if !isArr[i] {
+					continue
+				}
+				ops = append(ops, sx.L(sx.I(4), sx.N(i), sx.N(ctx.Rnd.Intn(L+5)), sx.I(0)))
+				ctx.Count("op:shared-set-length")
+			default:
+				j := ctx.Rnd.Intn(4)
+				fl := ctx.Rnd.Intn(4)
+				if i == j {
+					fl = 0
+				}
+				ops = append(ops, sx.L(sx.I(2), sx.N(i), sx.N(j), sx.N(fl)))
+				isArr[i] = isArr[j]
+				ctx.Count("op:shared-copy")
+			}
+		}
+		ctx.Count("shared-writes")
+		emit(ops, true)
 	}
 }
 
@@ -348,9 +421,33 @@ func runC20(in sx.SX) (sx.SX, string) {
 		r[idx] = x
 		return r
 	}
+	// the discipline of DESIGN.md 4.3, tracked as the generator and the theorem (VariantHeapProofs.disc) do: once a handle
+	// that may share its list is written in place the value oracle no longer applies, the heap machine still does
+	linked := make([]bool, 4)
+	disciplined := true
 	for step, o := range sx.AsList(in) {
 		oo := sx.AsList(o)
+		if sx.AsInt(oo[0]) == 9 {
+			continue
+		}
 		a, fl := int(sx.AsInt(oo[1])), int(sx.AsInt(oo[len(oo)-1]))
+		switch sx.AsInt(oo[0]) {
+		case 0, 1:
+			linked[a] = false
+		case 2:
+			j := int(sx.AsInt(oo[2]))
+			if fl == 3 {
+				if a != j {
+					linked[a], linked[j] = true, true
+				}
+			} else {
+				linked[a] = false
+			}
+		case 3, 4, 8:
+			if linked[a] {
+				disciplined = false
+			}
+		}
 		switch sx.AsInt(oo[0]) {
 		case 0:
 			v[a] = mkVariant(oo[2], int(sx.AsInt(oo[3])), fl, v[a])
@@ -411,6 +508,11 @@ func runC20(in sx.SX) (sx.SX, string) {
 		default:
 			lists[a] = lists[a][:0]
 			sl[a] = nil
+		}
+		if !disciplined { // the value oracle is out: it follows what the handles hold (the Equals checks below still apply)
+			for i := range v {
+				sv[i] = valSX(v[i])
+			}
 		}
 		// observe
 		var regs, ls, eq sx.List
